@@ -17,9 +17,15 @@ RULE = ("random acyclic component graphs (all component types incl. registry poi
         "datasource time limits, and components that work for longer than any time limit still running "
         "(simulated by fast-forwarding a pending real-time timer, so a datasource's own limit really "
         "expires through the engine's signal handler and a limit that outlived its datasource really "
-        "lands in whoever runs next - a later component or the caller after the evaluation returned). "
+        "lands in whoever runs next - a later component or the caller after the evaluation returned); the "
+        "last broker is evaluated 1..n times (a caller that goes on evaluating on one broker, optionally after "
+        "deleting values from it, as the interactive shell does), so records accumulate per component. "
+        "Sub-check `volume`: the same cases with sizes taken from the neighbourhood of round numbers (powers "
+        "of two and ten, -1/0/+1): elements of a multi-output datasource under its parsers, lengths of the "
+        "runs of element outcomes (n skips, then a failure, ...), number of evaluations on the one broker. "
         "Oracle: the evaluation never raises and nothing of it reaches the caller afterwards; broker values "
-        "equal the reference evaluator's exactly; every non-skip fault object is recorded with a "
+        "equal the reference evaluator's exactly; every non-skip fault object raised in any evaluation on the "
+        "broker is recorded with a "
         "traceback under the raising component or a registry point above/below it; skips only when "
         "recording is on and under the skipping component; no record under any other key. Non-trivial: "
         ">= 2 faults of different kinds (or a failing element of a multi-output parser) and a healthy "
@@ -32,19 +38,23 @@ ASSUMPTIONS = [
     "a slow component is modelled by elapsing the real-time timer that is pending when its body starts "
     "(ITIMER_REAL re-armed to a fraction of a millisecond and waited for); datasource time limits are "
     ">= 30 s so that none expires on its own while a case runs; the check runs in the main thread",
+    "evaluating again on a broker: bodies are deterministic, so a component that is not in the broker is "
+    "tried again with the same outcome and a value the caller deleted is computed again unchanged (values "
+    "the caller seeded are never deleted); what was recorded by earlier evaluations on the broker stays "
+    "recorded",
 ]
 EXCLUDED = ["ContentException raised by a bare dr.ComponentType component (see assumptions)"]
 
 
 @st.composite
-def cases(draw, tier="quick"):
-    case = draw(dyn.graphs(max_nodes=10 if tier == "quick" else 14,
-                            types=dyn.ALL_TYPES + ["parser", "parser", "parser", "datasource", "datasource", "regpoint"]))
+def cases(draw, tier="quick", max_nodes=None, types=None, rounds=None, drivers=None):
+    case = draw(dyn.graphs(max_nodes=max_nodes or (10 if tier == "quick" else 14),
+                            types=types or dyn.ALL_TYPES + ["parser", "parser", "parser", "datasource", "datasource", "regpoint"]))
     n = len(case["nodes"])
     for nd in case["nodes"]:
         if nd["t"] == "plain" and nd["fault"] == "content":
             nd["fault"] = "cpe"
-    case["driver"] = draw(dyn.driver(n))
+    case["driver"] = draw(dyn.driver(n, kinds=drivers))
     case["bad_observers"] = draw(st.lists(st.fixed_dictionaries({
         "on": st.sampled_from(["all", "rule", "datasource", "parser"]),
         "raise_for": st.lists(st.integers(0, n - 1), max_size=4, unique=True),
@@ -59,11 +69,99 @@ def cases(draw, tier="quick"):
                             if nd["t"] == "datasource" and draw(st.booleans()))
     # components whose body works for longer than any time limit that is still running when it starts
     case["slow"] = sorted(draw(st.sets(st.integers(0, n - 1), max_size=4)))
+    # the caller goes on evaluating on the broker of the last evaluation: `rounds` evaluations on that one
+    # broker; before evaluation r >= 2 it deletes the values of the nodes forget[(r - 2) % len(forget)]
+    case["rounds"] = draw(rounds if rounds is not None else st.sampled_from(ROUNDS))
+    case["forget"] = draw(st.lists(st.lists(st.integers(0, n - 1), max_size=3, unique=True), max_size=3)) \
+        if case["rounds"] > 1 else []
+    return case
+
+
+def boundary_sizes(tier):
+    """Sizes at which a capacity, a chunk, a width or a counter of an implementation typically changes
+    behaviour: the neighbourhood of powers of two and of round decimal numbers."""
+    tops = [8, 10, 16, 20, 32, 50, 64, 100, 128, 200, 256] + ([500, 512, 1000, 1024] if tier != "quick" else [])
+    return sorted(set(t + d for t in tops for d in (-1, 0, 1)))
+
+
+VOLUME_TYPES = ["datasource"] * 3 + ["parser"] * 4 + ["regpoint", "regpoint", "component", "combiner", "rule", "plain",
+                                                      "condition"]
+
+
+@st.composite
+def volume_cases(draw, tier="quick"):
+    """The cases of `cases` (smaller graphs) at sizes around round numbers: how many elements a multi-output
+    datasource has under its parsers, how long the runs of equal element outcomes are (n skips, then a
+    failure, then good ones ...), and how often the caller evaluates on the one broker.  Bodies are trivial,
+    so the cost of a case is the engine's."""
+    sizes = boundary_sizes(tier)
+    small = [1, 1, 2, 3]
+    cap = 320 if tier == "quick" else 1300       # invocations of generated bodies per case, roughly
+    many = st.sampled_from(small + small + [s for s in sizes if s <= (130 if tier == "quick" else 260)])
+    case = draw(cases(tier, max_nodes=6 if tier == "quick" else 8, types=VOLUME_TYPES, rounds=many,
+                      drivers=["run_full", "run_full"] + dyn.DRIVERS))
+    nodes = case["nodes"]
+
+    def feeding():
+        """multi-output capable datasources that feed a parser directly or through their registry point"""
+        out = {}
+        for p, nd in enumerate(nodes):
+            if nd["t"] == "parser":
+                src = nd["decl"][0][1]
+                if nodes[src]["t"] == "regpoint":
+                    src = nodes[src]["decl"][0][1][0]
+                if nodes[src]["t"] == "datasource":
+                    out.setdefault(src, []).append(p)
+        return out
+    feeds = feeding()
+    if not feeds:
+        # no such pair was drawn: the first node (it depends on nothing) becomes the datasource, and one of
+        # the parsers - or the last node (nothing depends on it) - its parser
+        if nodes[0]["t"] != "datasource":
+            nodes[0] = dict(nodes[0], t="datasource", multi=1)
+            nodes[0].pop("val", None)
+        ps = [p for p, nd in enumerate(nodes) if nd["t"] == "parser"]
+        if ps:
+            p = draw(st.sampled_from(ps))
+            nodes[p]["decl"] = [["req", 0]] + nodes[p]["decl"][1:]
+        else:
+            nodes[-1] = {"t": "parser", "decl": [["req", 0]], "fault": nodes[-1]["fault"], "multi": 0,
+                         "efaults": ["ok"], "coe": True}
+        feeds = feeding()
+    per_round = len(nodes)
+    if feeds:
+        for d in draw(st.lists(st.sampled_from(sorted(feeds)), min_size=1, max_size=2, unique=True)):
+            nodes[d]["multi"] = draw(st.sampled_from(sizes))
+            if draw(st.sampled_from([True] * 7 + [False])):
+                nodes[d]["fault"] = "ok"
+            # the datasource and its parsers really run: not seeded, not disabled, the datasource not slow
+            for key in ("seeded", "disabled", "slow"):
+                case[key] = [i for i in case[key] if i != d and (key == "slow" or i not in feeds[d])]
+            for i in [d] + feeds[d]:
+                case.get("seed_vals", {}).pop(str(i), None)
+            for p in feeds[d]:
+                runs = draw(st.lists(st.tuples(st.sampled_from(OUTCOMES),
+                                               st.sampled_from(small + sizes)), min_size=1, max_size=4))
+                pattern = []
+                for fault, length in runs:
+                    pattern.extend([fault] * length)
+                nodes[p]["efaults"] = pattern[:max(sizes) + 2]
+                nodes[p]["coe"] = draw(st.sampled_from([True, True, True, False]))
+                if draw(st.booleans()):
+                    nodes[p]["decl"] = nodes[p]["decl"][:1]       # the parser needs nothing but its datasource
+                per_round += nodes[d]["multi"]
+    case["timeouts"] = dict((i, secs) for i, secs in case["timeouts"].items() if nodes[int(i)]["t"] == "datasource")
+    # keep the cost of a case bounded: fewer evaluations on the broker when one evaluation is large
+    case["rounds"] = max(1, min(case["rounds"], cap // per_round))
+    if case["rounds"] == 1:
+        case["forget"] = []
     return case
 
 
 CONTEXTS = ["none", "host", "host", "archive"]
 TIMEOUTS = [30, 60, 600, 3600]
+ROUNDS = [1, 1, 1, 1, 1, 2, 3]
+OUTCOMES = ["boom", "skip", "cpe", "content", "timeout", "boom2", "ok"]     # of one element under a parser
 
 
 def context_class(kind):
@@ -135,6 +233,20 @@ def effective(case, expired):
     return out
 
 
+def bucket(n):
+    for top, name in ((1, "<=1"), (4, "2-4"), (16, "5-16"), (64, "17-64"), (99, "65-99"), (101, "100+-1"),
+                      (256, "102-256")):
+        if n <= top:
+            return name
+    return ">256"
+
+
+def near(n):
+    """`n` when it is a neighbour of a round number (the sizes worth telling apart), else `other`."""
+    return str(n) if any(abs(n - t) <= 1 for t in (8, 10, 16, 20, 32, 50, 64, 100, 128, 200, 256, 500, 512, 1000,
+                                                     1024)) else "other"
+
+
 def relatives(case, i):
     """Registry points above (transitive dependents) or below (transitive dependencies) node i."""
     nodes = case["nodes"]
@@ -183,13 +295,13 @@ def check(case):
                 state["unhandled"].append((i, -left))
         b.hook = hook
 
-        def evaluate(ctx, nth):
+        def evaluate(ctx, nth, again=None):
             cls = context_class(ctx)
 
             def prepare(broker):
                 if cls is not None:
                     broker[cls] = cls()
-            broker, escaped = dyn.execute(case, b, drv, observers, graphs=graphs, prepare=prepare)
+            broker, escaped = dyn.execute(case, b, drv, observers, graphs=graphs, prepare=prepare, broker=again)
             if escaped is not None:
                 raise Violation("an exception escaped evaluation %d (context %s): %s: %s" % (
                     nth, ctx, type(escaped).__name__, escaped))
@@ -234,8 +346,26 @@ def check(case):
             state["expired"].clear()
         ctx = contexts[-1]
         broker = evaluate(ctx, len(contexts))
+        # the caller goes on evaluating on this broker: whatever is not in it is tried again, and every
+        # failure of every evaluation is an exception of its own that has to be accounted for
+        rounds = max(1, int(case.get("rounds", 1)))
+        forget = case.get("forget") or [[]]
+        all_raised = [(key, e, 1) for key, e in b.raised.items()]
+        expired = set(state["expired"])
+        forgot = False
+        for r in range(2, rounds + 1):
+            b.log[:] = []
+            b.raised.clear()
+            state["expired"].clear()
+            for i in forget[(r - 2) % len(forget)]:
+                if i < len(b.comps) and i not in case["seeded"] and b.comps[i] in broker:
+                    del broker[b.comps[i]]
+                    forgot = True
+            evaluate(ctx, len(contexts), again=broker)
+            all_raised.extend((key, e, r) for key, e in b.raised.items())
+            expired |= state["expired"]
         ctx_cls = context_class(ctx)
-        case = effective(case, state["expired"])
+        case = effective(case, expired)
         ex = dyn.model(case, active)
         nodes = case["nodes"]
         comps = b.comps
@@ -259,7 +389,7 @@ def check(case):
         for k, lst in broker.exceptions.items():
             for e in lst:
                 records.setdefault(id(e), []).append(b.index[k] if k in b.index else repr(k))
-        raised_nodes = set(i for (i, _e) in b.raised)
+        raised_nodes = set(i for ((i, _elem), _e, _r) in all_raised)
         allowed_keys = set()
         for i in raised_nodes | ex.skipped_self:
             allowed_keys |= set([i]) | relatives(case, i)
@@ -272,9 +402,11 @@ def check(case):
                 raise Violation("exception recorded against %r, which neither raised nor is a spec of a raising "
                                 "component (raising nodes: %r)" % (ki if ki is not None else k, sorted(raised_nodes)),
                                 records=[type(e).__name__ for e in lst])
-        own = dict((id(e), key) for key, e in b.raised.items())
-        for (i, elem), e in sorted(b.raised.items(), key=lambda kv: repr(kv[0])):
+        own = dict((id(e), key) for key, e, _r in all_raised)
+        rel = {}
+        for (i, elem), e, r in sorted(all_raised, key=lambda kv: (kv[2], repr(kv[0]))):
             keys = records.get(id(e), [])
+            where = "" if rounds == 1 else " in evaluation %d of %d on the same broker" % (r, rounds)
             is_skip = type(e) is SkipComponent
             if is_skip:
                 # (d) deliberate skip: recorded iff store_skips, and then under the skipping component
@@ -282,14 +414,16 @@ def check(case):
                     raise Violation("deliberate skip of node %d recorded although skip recording is off" % i)
                 if case["store_skips"]:
                     if keys != [i]:
-                        raise Violation("deliberate skip of node %d (element %r) is recorded under %r, expected "
-                                        "exactly under the skipping component itself" % (i, elem, keys), node=i)
+                        raise Violation("deliberate skip of node %d (element %r)%s is recorded under %r, expected "
+                                        "exactly under the skipping component itself" % (i, elem, where, keys), node=i)
                 continue
             # (c) every other exception is recorded, with a traceback, under c or its specs
-            ok_keys = set([i]) | relatives(case, i)
+            if i not in rel:
+                rel[i] = set([i]) | relatives(case, i)
+            ok_keys = rel[i]
             if not keys:
-                raise Violation("%s raised by node %d (%s, element %r) is recorded nowhere" % (
-                    type(e).__name__, i, nodes[i]["t"], elem), node=i)
+                raise Violation("%s raised by node %d (%s, element %r)%s is recorded nowhere" % (
+                    type(e).__name__, i, nodes[i]["t"], elem, where), node=i)
             if not set(keys) <= ok_keys:
                 raise Violation("%s raised by node %d is recorded under %r, allowed %r" % (
                     type(e).__name__, i, keys, sorted(ok_keys)), node=i)
@@ -328,6 +462,24 @@ def check(case):
         if any(relatives(case, i) for i in raised_nodes):
             labels.append("fault-near-registry-point")
         labels.append("ctx=" + "+".join(contexts))
+        # how much one component had to account for on the one broker (exceptions raised by it or collected
+        # by it as a registry point, recorded skips included)
+        peak = max([len(lst) for lst in broker.exceptions.values()] or [0])
+        labels.append("records-per-component:" + bucket(peak))
+        if peak > 4:
+            labels.append("records-per-component=%s" % near(peak))
+        big = [nd["multi"] for i, nd in enumerate(nodes) if nd["t"] == "datasource" and i in ex.val
+               and isinstance(ex.val[i], list)]
+        if big and max(big) > 4:
+            labels.append("elements:" + bucket(max(big)))
+        labels.append("evaluations-on-broker:" + bucket(rounds))
+        if forgot:
+            labels.append("caller-deleted-values")
+        if rounds > 1 and any(r > 1 for (_k, _e, r) in all_raised):
+            labels.append("failed-again-on-same-broker")
+        if any(lst and type(lst[0]) is SkipComponent and any(type(x) is not SkipComponent for x in lst)
+               for lst in broker.exceptions.values()):
+            labels.append("recorded-skips-before-a-failure")
         if ctx == "host":
             # the classes the time limit machinery has to get right (last evaluation)
             calls = [e for e in b.log if e[0] == "call"]
@@ -358,8 +510,13 @@ def strat(tier):
     return cases(tier)
 
 
+def volume_strat(tier):
+    return volume_cases(tier)
+
+
 SUBS = [
-    Sub("faults", check, strategy=strat, quick=2500, thorough=20000, workers_quick=4),
+    Sub("faults", check, strategy=strat, quick=2300, thorough=20000, workers_quick=4),
+    Sub("volume", check, strategy=volume_strat, quick=250, thorough=2500, workers_quick=4),
 ]
 
 _N = {"multi": 0, "efaults": ["ok"], "coe": True, "decl": [], "fault": "ok"}
@@ -382,4 +539,14 @@ REGRESSIONS = [
         dict(_N, t="datasource", fault="cpe"), dict(_N, t="regpoint", decl=[["grp", [0]]]),
         dict(_N, t="parser", decl=[["req", 1]]), dict(_N, t="rule", decl=[["opt", 2]])],
         bad_observers=[{"on": "all", "raise_for": [0, 1, 2, 3], "exc": "boom"}])),
+    # a caller that goes on evaluating on one broker (and deletes a value in between): the failing datasource,
+    # its registry point and the failing element of the parser are tried - and accounted for - every time
+    Reg("same-broker-history", "faults", dict(_BASE, store_skips=True, rounds=3, forget=[[3], []], nodes=[
+        dict(_N, t="datasource", fault="cpe"), dict(_N, t="regpoint", decl=[["grp", [0]]]),
+        dict(_N, t="datasource", multi=3), dict(_N, t="parser", decl=[["req", 2]], efaults=["ok", "boom", "skip"]),
+        dict(_N, t="component", decl=[["opt", 1], ["opt", 3]]), dict(_N, t="plain", fault="boom2")])),
+    # a multi-output datasource with a dozen elements: a run of skipped elements, then a failure, then a good one
+    Reg("run-of-skips-then-failure", "volume", dict(_BASE, store_skips=True, rounds=2, nodes=[
+        dict(_N, t="datasource", multi=12), dict(_N, t="parser", decl=[["req", 0]], efaults=["skip"] * 5 + ["boom", "ok"]),
+        dict(_N, t="rule", decl=[["req", 1]])])),
 ]
